@@ -417,6 +417,12 @@ inline Shared *&currentShared()
 // loop after its violation has been recorded); the parent continues with the next case
 // without recording a crash.
 inline void abandonChild();
+// optional callback run in a forked child after its last case (e.g. verdicts that need totals)
+inline std::function<void()> &childExitHook()
+{
+  static std::function<void()> f;
+  return f;
+}
 // in a forked child: send stderr to $VH_OUT/err.<pid> so that sanitizer messages printed
 // there (UBSan ignores log_path) can be attributed to the case that produced them
 // in a forked child: forget the counters inherited from the parent (the parent reports
@@ -490,6 +496,8 @@ inline void forkedCases(long n, const std::function<void(long)> &fn, int timeout
         }
       }
       sh->cur = end;
+      if (childExitHook())
+        childExitHook()();
       flushStats();
       _exit(0);
     }
